@@ -183,6 +183,9 @@ class ViewAnalysis:
                 return ("unknown", "view over " + fmt(ns)[:60])
             if k in ("wasm::Wasm::contract_storage", "wasm::Wasm::contract_storage_mut"):
                 return ("contract-view",)
+            from vlib.prov import leaves
+            if not any(x[0] in ("param", "env", "upvar", "bound", "cparam", "cycle", "unknown") for x in leaves(o)):
+                return ("scratch",)  # a store created locally from nothing: not chain state
             return ("unknown", "result of " + k)
         if o[0] == "bound" and o[1] in ("cache_of", "base_ro"):
             return self.classify(f, o[2], depth)
@@ -254,6 +257,9 @@ def r3(ctx, cfg):
                 elif st[0] == "contract-view":
                     ok = f.file == "src/wasm.rs"
                     msg = "contract window used outside wasm.rs"
+                elif st[0] == "scratch":
+                    ok = True
+                    msg = "locally created scratch store"
                 elif st[0] == "root" and exc:
                     ok = True
                     msg = exc
